@@ -125,7 +125,7 @@ def lsrReports : Option (Nat × Int) → List Ev → List (Nat × Nat)
   | o, .report now :: es =>
     (match o with
      | none => (0, 0)
-     | some (ntp, t) => ((ntp / 65536) % M32, toUint32 (mul (seconds (now - t)) 65536))) :: lsrReports o es
+     | some (ntp, t) => ((ntp / 65536) % M32, toUint32 (mul (seconds (max (now - t) 0)) 65536))) :: lsrReports o es
 
 /-- T5 spec: the jitter after a history: RFC 3550 A.8 recurrence `J += (|D| − J)/16` in binary64,
 with `D = Δarrival·rate − (ts − ts')`, the timestamp difference modulo 2^32 as a signed value. -/
